@@ -54,6 +54,8 @@ func cpuSeconds() float64 {
 var caseStartCPU atomic.Value // float64
 var caseSerial atomic.Int64
 
+func touchWatchdog() { caseStartCPU.Store(cpuSeconds()) }
+
 func startWatchdog() {
 	caseStartCPU.Store(cpuSeconds())
 	go func() {
